@@ -31,7 +31,7 @@ def gen_cond(rng):
         return ("aslen", rng.randrange(3), rng.choice([2, 2, 3, 3, 4]))    # lengths around those of the generated paths, before and after the rewrite
     while True:
         c = c10.gen_cond(rng)
-        if c[0] not in ("nexthop", "rtype"):        # outside the concrete instance, see Reset/Concrete.v
+        if c[0] not in ("nexthop", "rtype", "commre"):        # outside the concrete instance, see Reset/Concrete.v
             return c
 
 
